@@ -39,7 +39,9 @@ CHECKS = {
         rule="one case = (receiver, message, segmentation plan or cut offset) or (sender, stream) under forced partial "
              "writes; every 2-split, all 3-splits of short messages (sampled for long ones), byte-by-byte, random "
              "segmentations, every cut offset followed by end-of-stream; distinct by (receiver, message, plan)",
-        units=[U("framing", "hv", "c08", shards=(8, 16))],
+        units=[U("framing", "hv", "c08", shards=(8, 16)),
+               U("asan-framing", "hv", "c08", build="asan", tiers=("thorough",), shards=(1, 8),
+                 env={"ASAN_OPTIONS": "halt_on_error=1:abort_on_error=0:detect_leaks=1:exitcode=97"})],
     ),
     "C04": dict(
         level="exploration",
@@ -57,14 +59,18 @@ CHECKS = {
              "invalid-argument messages; distinct by the stream's mutation description; non-trivial = the server "
              "parsed at least the first header under the panic/validity monitors",
         units=[U("streams", "hv", "c05", shards=(8, 16), crash_is_violation=True),
-               U("daemon", "hd", "c05", shards=(6, 16), crash_is_violation=True)],
+               U("daemon", "hd", "c05", shards=(6, 16), crash_is_violation=True),
+               U("asan-streams", "hv", "c05", build="asan", tiers=("thorough",), shards=(1, 8), crash_is_violation=True,
+                 env={"ASAN_OPTIONS": "halt_on_error=1:abort_on_error=0:detect_leaks=1:exitcode=97"})],
     ),
     "C06": dict(
         level="exploration",
         rule="one case = (endpoint, request, one-dimensional reply mutation) answered by a raw peer that then ends the "
              "stream, or one hostile stream / well-framed request with 0..=3 descriptors to the frontend request "
              "server; distinct by (endpoint, request, mutation) resp. stream description",
-        units=[U("parsers", "hv", "c06", shards=(6, 16), crash_is_violation=True)],
+        units=[U("parsers", "hv", "c06", shards=(6, 16), crash_is_violation=True),
+               U("asan-parsers", "hv", "c06", build="asan", tiers=("thorough",), shards=(1, 8), crash_is_violation=True,
+                 env={"ASAN_OPTIONS": "halt_on_error=1:abort_on_error=0:detect_leaks=1:exitcode=97"})],
     ),
     "C09": dict(
         level="fault_enumeration",
@@ -72,6 +78,8 @@ CHECKS = {
              "frontend call answered with 0..=40 wanted/unwanted descriptors; proxies lent descriptors) bracketed by "
              "two /proc/self/fd censuses; distinct by scenario description and teardown point",
         units=[U("census", "hv", "c09", shards=(6, 16)),
+               U("lsan-census", "hv", "c09", build="asan", tiers=("thorough",), shards=(1, 4),
+                 env={"ASAN_OPTIONS": "halt_on_error=1:abort_on_error=0:detect_leaks=1:exitcode=97"}),
                U("daemon-census", "hd", "c09", shards=(4, 12))],
     ),
     "C10": dict(
@@ -109,7 +117,9 @@ CHECKS = {
              "adjacent, overlapping, duplicate, unmappable fd, unaligned offset, user ranges across the 64-bit space) "
              "with region-set, two-view byte probes and SET_VRING_ADDR translation probes after every step; distinct "
              "by the op/outcome trace",
-        units=[U("memory", "hd", "c13", shards=(6, 16))],
+        units=[U("memory", "hd", "c13", shards=(6, 16)),
+               U("asan-memory", "hd", "c13", build="asan", tiers=("thorough",), shards=(1, 4),
+                 env={"ASAN_OPTIONS": "halt_on_error=1:abort_on_error=0:detect_leaks=1:exitcode=97"})],
     ),
     "C14": dict(
         level="exploration",
